@@ -2582,6 +2582,16 @@ XPathProcessorImpl::QName()
     assert(m_xpath != 0);
     assert(m_expression != 0);
 
+    // The name, or the prefix, has to be a name, and not
+    // whatever token happens to follow the '$'...
+    if (isNodeTest(m_token) == false ||
+        tokenIs(XalanUnicode::charAsterisk) == true)
+    {
+        error(
+            XalanMessages::IsNotValidQName_1Param,
+            m_token);
+    }
+
     // If there is no prefix, we have to fake things out...
     if (lookahead(XalanUnicode::charColon, 1) == false)
     {
@@ -2601,6 +2611,15 @@ XPathProcessorImpl::QName()
         nextToken();
 
         consumeExpected(XalanUnicode::charColon);
+
+        // The local part has to be a name as well...
+        if (isNodeTest(m_token) == false ||
+            tokenIs(XalanUnicode::charAsterisk) == true)
+        {
+            error(
+                XalanMessages::IsNotValidQName_1Param,
+                m_token);
+        }
     }
 
     m_expression->pushCurrentTokenOnOpCodeMap();
